@@ -315,6 +315,9 @@ func runUnit(w *World, pk *Pkg, c *Contract) (res *UnitResult) {
 func (e *Engine) buildQuery(o *Oblig, timeoutMs int) string {
 	var b strings.Builder
 	b.WriteString(e.preamble())
+	if e.useStreq && !e.bv {
+		b.WriteString(streqDef)
+	}
 	for _, d := range e.sortDecls {
 		b.WriteString(d)
 		b.WriteByte('\n')
